@@ -4,6 +4,7 @@ import ZV.Proofs.C07Fuel
 import ZV.Proofs.C07Eku
 import ZV.Proofs.C07Complete
 import ZV.Props.C09
+import ZV.Generated.C07
 /-!
   C07 — chain verification returns only valid chains and partitions them by date.
 
@@ -858,5 +859,340 @@ example : findVerifiedParents { exEnv with roots := [] } [] exLeaf = [] ∧
 example : containsFp exEnv.roots exLeaf = false ∧ (0, exRoot) ∈ findVerifiedParents exEnv exEnv.roots exLeaf ∧
     exLeaf.id ≠ exRoot.id := by decide
 example : PathOK exRoot 1 := by simp [PathOK, exRoot, maxIntermediateCount]
+
+/-! ### T1: constants and guards re-read from x509/verify.go on every run -/
+
+/-- the depth bound the recursion theorems rest on is the constant of the source file -/
+theorem maxIntermediateCount_generated : maxIntermediateCount = Gen.maxIntermediateCount := by decide
+
+/-- the guards of `isValid` modelled branch for branch are the `if` conditions of the source, in order -/
+theorem isValidGuards_generated : isValidGuards = Gen.isValidGuards := by decide
+
+/-- `FilterByDate` has exactly the guards modelled by `filterByDate` (empty chain, the panic branch, valid, wasValid) -/
+theorem filterByDateGuards_generated :
+    Gen.filterByDateGuards = ["len(chain)==0", "valid&&!wasValid", "valid", "wasValid"] := by decide
+
+/-- the `InvalidReason` block still starts `NotAuthorizedToSign, Expired, …` and contains the kinds the model's `Err` names -/
+theorem invalidReasons_generated :
+    ["NotAuthorizedToSign", "Expired", "TooManyIntermediates", "IncompatibleUsage", "NeverValid", "IsSelfSigned"].all
+      (fun r => Gen.invalidReasons.contains r) = true := by decide
+
+/-- `buildChains` contains no name-constraint guard: the only conditions are the ones modelled. -/
+theorem buildChainsGuards_generated :
+    Gen.buildChainsGuards =
+      ["len(currentChain)==1&&opts.Roots.Contains(c)", "len(chains)==0&&c.SelfSigned", "err!=nil",
+       "!currentChain.CertificateInChain(root)", "opts.Roots.Contains(intermediate)",
+       "currentChain.CertificateSubjectAndKeyInChain(intermediate)", "err!=nil", "!ok", "len(chains)>0",
+       "len(chains)==0&&err==nil", "hintErr==nil"] := by decide
+
+/-! ### ValidateWithStupidDetail -/
+
+/-- the options `ValidateWithStupidDetail` hands to `Verify`: no key usages, no DNS name -/
+def vsdOpts (opts : Opts) : Opts := { now := opts.now, keyUsages := [], dnsName := [] }
+
+theorem vsd_total (env : Env) (c : Cert) (hostCert : C09.Cert) (opts : Opts) :
+    ∃ o, validateWithStupidDetail env c hostCert opts = .ok o := by
+  unfold validateWithStupidDetail
+  obtain ⟨v, hv⟩ := verify_total env c hostCert (vsdOpts opts)
+  simp only [vsdOpts] at hv
+  rw [hv]
+  simp only
+  split
+  · exact ⟨_, rfl⟩
+  · obtain ⟨w, hw⟩ := C09.verifyHostname_total hostCert opts.dnsName
+    rw [hw]
+    cases w <;> exact ⟨_, rfl⟩
+
+/-- The requested key usages do not influence `ValidateWithStupidDetail` at all. -/
+theorem vsd_ignores_key_usages (env : Env) (c : Cert) (hostCert : C09.Cert) (opts : Opts) (kus : List Int) :
+    validateWithStupidDetail env c hostCert { opts with keyUsages := kus } =
+      validateWithStupidDetail env c hostCert opts := rfl
+
+/-- `vsd_spec`: `ValidateWithStupidDetail` in terms of `Verify` on `vsdOpts` (result `v`) and of
+    `VerifyHostname`: the chains are `v`'s CURRENT chains, `BrowserError` is `v`'s error,
+    `BrowserTrusted` ⇔ that error is nil, `MatchesDomain` ⇔ a domain was given and satisfies
+    `C09.HostSpec`, and the returned error is `v`'s error if there is one, else a `HostnameError`
+    exactly when a domain was given and does not match. -/
+theorem vsd_spec (env : Env) (c : Cert) (hostCert : C09.Cert) (opts : Opts) (v : Out) (o : VsdOut)
+    (hv : verify env c hostCert (vsdOpts opts) = .ok v)
+    (h : validateWithStupidDetail env c hostCert opts = .ok o) :
+    o.chains = v.current ∧ o.validation.browserError = v.err ∧ o.validation.domain = opts.dnsName ∧
+    (o.validation.browserTrusted = true ↔ v.err = none) ∧
+    (o.validation.matchesDomain = true ↔ opts.dnsName ≠ [] ∧ C09.HostSpec hostCert opts.dnsName) ∧
+    (∀ e, v.err = some e → o.err = some e) ∧
+    (v.err = none → (o.err = none ∨ o.err = some .hostname) ∧
+      (o.err = none ↔ (opts.dnsName = [] ∨ C09.HostSpec hostCert opts.dnsName))) := by
+  unfold validateWithStupidDetail at h
+  simp only [vsdOpts] at hv
+  rw [hv] at h
+  simp only at h
+  have htr : ((match v.err with | none => true | some _ => false) = true ↔ v.err = none) := by
+    cases v.err <;> simp
+  split at h
+  · rename_i hd
+    have hd' : opts.dnsName = [] := List.length_eq_zero_iff.mp hd
+    cases h
+    refine ⟨rfl, rfl, rfl, htr, ?_, fun e he => he, fun hn => ⟨Or.inl hn, ?_⟩⟩
+    · simp [hd']
+    · simp [hn, hd']
+  · rename_i hd
+    have hd' : opts.dnsName ≠ [] := fun e => hd (by simp [e])
+    split at h
+    · rename_i hacc
+      have hs := (C09.verifyHostname_iff _ _).mp hacc
+      cases h
+      refine ⟨rfl, rfl, rfl, htr, ?_, fun e he => he, fun hn => ⟨Or.inl hn, ?_⟩⟩
+      · simp [hd', hs]
+      · simp [hn, hs]
+    · rename_i r hrej
+      have hs : ¬ C09.HostSpec hostCert opts.dnsName := by
+        intro hsp
+        have := (C09.verifyHostname_iff _ _).mpr hsp
+        rw [this] at hrej; cases hrej
+      cases h
+      refine ⟨rfl, rfl, rfl, htr, ?_, ?_, ?_⟩
+      · simp [hs]
+      · intro e he; simp [he]
+      · intro hn
+        simp [hn, hd', hs]
+    · cases h
+    · cases h
+
+/-- every current chain of `Verify` is in date class 0 -/
+theorem verify_current_class (env : Env) (c : Cert) (hostCert : C09.Cert) (opts : Opts) (o : Out)
+    (h : verify env c hostCert opts = .ok o) : ∀ ch ∈ o.current, classOf opts.now ch = some 0 := by
+  intro ch hch
+  have hk := verify_error_kind env c hostCert opts o h
+  by_cases h1 : (candidateChains env c).1 = []
+  · rw [(hk.1 h1).2.2.1] at hch; cases hch
+  · by_cases h2 : filterUsage (candidateChains env c).1 (usagesOf opts) = []
+    · rw [(hk.2.1 h1 h2).2.1] at hch; cases hch
+    · rw [(hk.2.2 h2).1] at hch
+      simpa using (List.mem_filter.mp hch).2
+
+/-- with no DNS name requested, a non-nil error of `Verify` means there is no current chain -/
+theorem verify_err_no_current (env : Env) (c : Cert) (hostCert : C09.Cert) (opts : Opts) (o : Out)
+    (h : verify env c hostCert opts = .ok o) (hd : opts.dnsName = []) (he : o.err ≠ none) : o.current = [] := by
+  have hk := verify_error_kind env c hostCert opts o h
+  by_cases h1 : (candidateChains env c).1 = []
+  · exact (hk.1 h1).2.2.1
+  · by_cases h2 : filterUsage (candidateChains env c).1 (usagesOf opts) = []
+    · exact (hk.2.1 h1 h2).2.1
+    · by_cases hc : o.current = []
+      · exact hc
+      · rcases (hk.2.2 h2).2.2.2.2.2 hc with ⟨e, _⟩ | ⟨_, e, _⟩
+        · exact absurd e he
+        · exact absurd hd e
+
+/-- `vsd_sound`: every chain returned by `ValidateWithStupidDetail` is a `ValidChain` for the
+    verified certificate and the supplied pools, is acceptable for ServerAuth (the requested usages
+    are discarded), and is CURRENT at the verification time. -/
+theorem vsd_sound (env : Env) (c : Cert) (hostCert : C09.Cert) (opts : Opts) (o : VsdOut)
+    (h : validateWithStupidDetail env c hostCert opts = .ok o) :
+    ∀ ch ∈ o.chains, ValidChain env c ch ∧ checkChainForKeyUsage ch [ekuServerAuth] = true ∧
+      classOf opts.now ch = some 0 := by
+  obtain ⟨v, hv⟩ := verify_total env c hostCert (vsdOpts opts)
+  obtain ⟨e1, _⟩ := vsd_spec env c hostCert opts v o hv h
+  intro ch hch
+  rw [e1] at hch
+  have hs := verify_sound env c hostCert (vsdOpts opts) v hv ch (by simp [hch])
+  have hc := verify_current_class env c hostCert (vsdOpts opts) v hv ch hch
+  refine ⟨hs.1, ?_, hc⟩
+  rcases hs.2 with r | r
+  · have : (usagesOf (vsdOpts opts)) = [ekuServerAuth] := rfl
+    rw [this] at r
+    exact absurd r (by decide)
+  · exact r
+
+/-- `vsd_nil_error`: a nil error of `ValidateWithStupidDetail` implies a returned (current, valid)
+    chain, `BrowserTrusted`, and — when a domain was given — `MatchesDomain` and `C09.HostSpec`. -/
+theorem vsd_nil_error (env : Env) (c : Cert) (hostCert : C09.Cert) (opts : Opts) (o : VsdOut)
+    (h : validateWithStupidDetail env c hostCert opts = .ok o) (hnil : o.err = none) :
+    o.chains ≠ [] ∧ o.validation.browserTrusted = true ∧
+    (opts.dnsName ≠ [] → o.validation.matchesDomain = true ∧ C09.HostSpec hostCert opts.dnsName) := by
+  obtain ⟨v, hv⟩ := verify_total env c hostCert (vsdOpts opts)
+  obtain ⟨e1, _, _, e4, e5, e6, e7⟩ := vsd_spec env c hostCert opts v o hv h
+  have hvn : v.err = none := by
+    cases hve : v.err with
+    | none => rfl
+    | some e => have := e6 e hve; rw [hnil] at this; cases this
+  refine ⟨?_, e4.mpr hvn, ?_⟩
+  · rw [e1]; exact (nil_error_implies env c hostCert (vsdOpts opts) v hv hvn).1
+  · intro hd
+    rcases ((e7 hvn).2.mp hnil) with r | r
+    · exact absurd r hd
+    · exact ⟨e5.mpr ⟨hd, r⟩, r⟩
+
+/-- `BrowserTrusted` ⇔ a chain is returned -/
+theorem vsd_trusted_iff_chain (env : Env) (c : Cert) (hostCert : C09.Cert) (opts : Opts) (o : VsdOut)
+    (h : validateWithStupidDetail env c hostCert opts = .ok o) :
+    o.validation.browserTrusted = true ↔ o.chains ≠ [] := by
+  obtain ⟨v, hv⟩ := verify_total env c hostCert (vsdOpts opts)
+  obtain ⟨e1, _, _, e4, _⟩ := vsd_spec env c hostCert opts v o hv h
+  rw [e4, e1]
+  constructor
+  · intro hn; exact (nil_error_implies env c hostCert (vsdOpts opts) v hv hn).1
+  · intro hne
+    cases hve : v.err with
+    | none => rfl
+    | some e =>
+      exact absurd (verify_err_no_current env c hostCert (vsdOpts opts) v hv rfl (by rw [hve]; simp)) hne
+
+-- the requested usages are discarded: a ClientAuth-only request is answered with a ServerAuth chain
+-- whose leaf does not allow ClientAuth (true of the code: "XXX: Don't pass a KeyUsage to the Verify API")
+example :
+    (validateWithStupidDetail exEnv exLeaf exHost { now := 20, keyUsages := [2], dnsName := [] }).map
+        (fun o => (o.chains.map (·.map (·.uid)), o.err, o.validation.browserTrusted)) = .ok ([[1, 0]], none, true) ∧
+    checkChainForKeyUsage [exLeaf, exRoot] [2] = false := by decide
+
+example : ∃ o, validateWithStupidDetail exEnv exLeaf exHost { now := 20, keyUsages := [], dnsName := [] } = .ok o ∧ o.err = none := by
+  obtain ⟨o, ho⟩ := vsd_total exEnv exLeaf exHost { now := 20, keyUsages := [], dnsName := [] }
+  refine ⟨o, ho, ?_⟩
+  have : (validateWithStupidDetail exEnv exLeaf exHost { now := 20, keyUsages := [], dnsName := [] }).map (·.err) = .ok none := by decide
+  rw [ho] at this
+  simpa [Res.map] using this
+
+/-! ### the memoised builder is NOT complete beyond depth one (counter-example, replayed on the Go code)
+
+  PKI (harness: fixed PKI `memoSeed`, case line `c07 4611686018427387911 … 4 0 1.2.3 1500000001 _ - 0 _ …`):
+  root R (0), CA B (1) issued by R, twin CAs A1 (2, expired) and A2 (3, current) with the same subject and
+  key, both issued by B, leaf L (4) issued by A1/A2.  Intermediates pool in the order B, A1, A2.
+  `buildChains` caches B's result `[[L,A1,B,R]]` computed below `[L,A1]` under B's pool index and re-uses
+  it below `[L,A2]`: the chain `[L,A2,B,R]` — valid, acceptable for ServerAuth, current — is never
+  produced; `[L,A1,B,R]` (expired) is returned TWICE and `Verify` fails with `Expired`. -/
+
+def mCert (uid subject issuer spki skid akid : Nat) (ca self : Bool) (na : Int) : Cert :=
+  { uid := uid, id := uid + 1, subject := subject, issuer := issuer, spki := spki, skid := skid, akid := akid,
+    version3 := true, bcValid := ca, isCA := ca, maxPathLen := -1, kuPresent := false, kuCertSign := false,
+    selfSigned := self, eku := [], unknownEku := false, notBefore := -2000, notAfter := na }
+def mR : Cert := mCert 0 1 1 1 11 11 true true 5000
+def mB : Cert := mCert 1 2 1 2 12 11 true false 5000
+def mA1 : Cert := mCert 2 3 2 3 13 12 true false (-1000)
+def mA2 : Cert := mCert 3 3 2 3 13 12 true false 5000
+def mL : Cert := mCert 4 4 3 4 14 13 false false 5000
+/-- real signatures: R signs R and B, B signs A1 and A2, A's key signs L -/
+def mSig (a b : Cert) : Bool :=
+  (a.uid = 0 && b.uid = 0) || (a.uid = 1 && b.uid = 0) || ((a.uid = 2 || a.uid = 3) && b.uid = 1) ||
+  (a.uid = 4 && (b.uid = 2 || b.uid = 3))
+def mEnv : Env := { roots := [mR], inters := [mB, mA1, mA2], sigOK := mSig }
+def mOpts : Opts := { now := 1, keyUsages := [], dnsName := [] }
+
+/-- the lost chain satisfies every clause of the property's sentence … -/
+theorem memo_lost_chain_valid : ValidChain mEnv mL [mL, mA2, mB, mR] ∧
+    checkChainForKeyUsage [mL, mA2, mB, mR] (usagesOf mOpts) = true ∧ classOf mOpts.now [mL, mA2, mB, mR] = some 0 := by
+  refine ⟨?_, by decide, by decide⟩
+  have p1 : Prefix mEnv mL ([mL] ++ [mA2]) mA2 :=
+    Prefix.step Prefix.leaf (by simp [mEnv]) (by decide) (by decide) rfl rfl
+      (by simp [PathOK, mA2, mCert, maxIntermediateCount]) (by decide)
+  have p2 : Prefix mEnv mL ([mL, mA2] ++ [mB]) mB :=
+    Prefix.step p1 (by simp [mEnv]) (by decide) (by decide) rfl rfl
+      (by simp [PathOK, mB, mCert, maxIntermediateCount]) (by decide)
+  exact ValidChain.close (cur := [mL, mA2, mB]) p2 (by simp [mEnv]) (by decide)
+    (by simp [PathOK, mR, mCert, maxIntermediateCount]) (by decide)
+
+/-- … but `Verify` does not return it: it returns the expired chain twice and the error `Expired`. -/
+theorem memo_verify_expired :
+    (verify mEnv mL exHost mOpts).map (fun o => (o.err, o.current, o.expired.map (·.map (·.uid)), o.never)) =
+      .ok (some .expired, [], [[4, 2, 1, 0], [4, 2, 1, 0]], []) := by decide
+
+/-- completeness of the memoised builder is FALSE: a `ValidChain` that is not among the candidates. -/
+theorem memo_lost_chain : ∃ env c ch, ValidChain env c ch ∧ ch ∉ (candidateChains env c).1 :=
+  ⟨mEnv, mL, [mL, mA2, mB, mR], memo_lost_chain_valid.1, by decide⟩
+
+/-- … while with the twins in the other order the same chain IS found (order dependence). -/
+example : (verify { mEnv with inters := [mB, mA2, mA1] } mL exHost mOpts).map
+      (fun o => (o.err, o.current.map (·.map (·.uid)), o.expired)) = .ok (none, [[4, 3, 1, 0], [4, 3, 1, 0]], []) := by decide
+
+/-! ### flat reading, continued: path-length limits by position, no certificate repeated -/
+
+theorem prefix_pathOK {env leaf cur c} (h : Prefix env leaf cur c) :
+    ∀ i x, 1 ≤ i → cur[i]? = some x → PathOK x i := by
+  induction h with
+  | leaf =>
+    intro i x hi hx
+    cases i with
+    | zero => omega
+    | succ n => simp at hx
+  | @step cur0 c0 x0 hp _ _ _ _ _ hpath _ ih =>
+    intro i x hi hx
+    by_cases hlt : i < cur0.length
+    · rw [List.getElem?_append_left hlt] at hx; exact ih i x hi hx
+    · rw [List.getElem?_append_right (by omega)] at hx
+      by_cases heq : i = cur0.length
+      · subst heq; simp at hx; subst hx; exact hpath
+      · have : i - cur0.length = (i - cur0.length - 1) + 1 := by omega
+        rw [this] at hx; simp at hx
+
+/-- "within their path-length limits": the certificate at position `i ≥ 1` of a returned chain
+    (an intermediate or the root; `i - 1` intermediates lie below it) does not have a
+    `MaxPathLen` (valid BasicConstraints, non-negative) smaller than `i - 1`, and `i ≤ 10`. -/
+theorem validChain_pathOK {env leaf ch} (h : ValidChain env leaf ch) :
+    ∀ i x, 1 ≤ i → ch[i]? = some x → PathOK x i := by
+  cases h with
+  | trusted _ =>
+    intro i x hi hx
+    cases i with
+    | zero => omega
+    | succ n => simp at hx
+  | @close cur c0 root hp _ _ hpath _ =>
+    intro i x hi hx
+    by_cases hlt : i < cur.length
+    · rw [List.getElem?_append_left hlt] at hx; exact prefix_pathOK hp i x hi hx
+    · rw [List.getElem?_append_right (by omega)] at hx
+      by_cases heq : i = cur.length
+      · subst heq; simp at hx; subst hx; exact hpath
+      · have : i - cur.length = (i - cur.length - 1) + 1 := by omega
+        rw [this] at hx; simp at hx
+
+/-- no two certificates of the leaf-and-intermediates part share subject and key -/
+theorem prefix_no_repeat {env leaf cur c} (h : Prefix env leaf cur c) :
+    cur.Pairwise (fun a b => ¬ (a.subject = b.subject ∧ a.spki = b.spki)) := by
+  induction h with
+  | leaf => simp
+  | @step cur0 c0 x0 hp _ _ _ _ _ _ hfresh ih =>
+    rw [List.pairwise_append]
+    refine ⟨ih, by simp, ?_⟩
+    intro a ha b hb
+    simp only [List.mem_singleton] at hb; subst hb
+    intro hab
+    have : subjectAndKeyInChain cur0 b = true := List.any_eq_true.mpr ⟨a, ha, by simpa using hab⟩
+    rw [hfresh] at this; cases this
+
+/-- "repeats no certificate": the certificates of a returned chain are pairwise different (raw
+    bytes).  `hid` says that identical raw bytes mean identical subject and key — true of parsed
+    certificates (the fields are slices of `Raw`); it is needed because the code compares
+    intermediates by subject+key and only the root by raw bytes. -/
+theorem validChain_no_repeat {env leaf ch} (h : ValidChain env leaf ch)
+    (hid : ∀ x ∈ ch, ∀ y ∈ ch, x.id = y.id → x.subject = y.subject ∧ x.spki = y.spki) :
+    ch.Pairwise (fun a b => a.id ≠ b.id) := by
+  cases h with
+  | trusted _ => simp
+  | @close cur c0 root hp _ _ _ hfresh =>
+    rw [List.pairwise_append]
+    refine ⟨?_, by simp, ?_⟩
+    · exact List.Pairwise.imp_of_mem
+        (fun {a b} ha hb hne hab => hne (hid a (by simp [ha]) b (by simp [hb]) hab)) (prefix_no_repeat hp)
+    · intro a ha b hb
+      simp only [List.mem_singleton] at hb; subst hb
+      exact validChain_root_fresh hp hfresh a ha
+
+example : ∀ x ∈ [exLeaf, exRoot], ∀ y ∈ [exLeaf, exRoot], x.id = y.id → x.subject = y.subject ∧ x.spki = y.spki := by decide
+
+/-- every returned chain of `Verify`, flat: all clauses of the property's first sentence at once -/
+theorem verify_chain_flat (env : Env) (c : Cert) (hostCert : C09.Cert) (opts : Opts) (o : Out)
+    (h : verify env c hostCert opts = .ok o) (ch : Chain) (hch : ch ∈ o.current ++ o.expired ++ o.never) :
+    ch.head? = some c ∧
+    (∃ r last, ch.getLast? = some last ∧ r ∈ env.roots ∧ r.id = last.id) ∧
+    (∀ a b, Adjacent a b ch → b.subject = a.issuer ∧ env.sigOK a b = true) ∧
+    (∀ x ∈ (ch.drop 1).dropLast, x ∈ env.inters ∧ x.bcValid = true ∧ x.isCA = true) ∧
+    (∀ i x, 1 ≤ i → ch[i]? = some x → PathOK x i) ∧
+    ((∀ x ∈ ch, ∀ y ∈ ch, x.id = y.id → x.subject = y.subject ∧ x.spki = y.spki) → ch.Pairwise (fun a b => a.id ≠ b.id)) ∧
+    ((usagesOf opts).any (fun u => u = ekuAny) = true ∨ UsageSpec ch (usagesOf opts)) := by
+  obtain ⟨hv, hu⟩ := verify_sound env c hostCert opts o h ch hch
+  refine ⟨validChain_head hv, validChain_last_root hv, validChain_links hv, validChain_intermediates hv,
+    validChain_pathOK hv, validChain_no_repeat hv, ?_⟩
+  rcases hu with r | r
+  · exact Or.inl r
+  · exact Or.inr ((checkChainForKeyUsage_spec _ _).mp r)
 
 end ZV.C07
